@@ -34,14 +34,21 @@ pub fn module_problems(em: &Emitted, settings: &SettingsSpec) -> Vec<(String, St
         if m.other_items > 0 {
             out.push((
                 "unexpected-item".to_string(),
-                format!("module {} contains {} items that are neither use/mod/struct/enum", path.join("::"), m.other_items),
+                format!(
+                    "module {} contains {} items that are neither use/mod/struct/enum",
+                    path.join("::"),
+                    m.other_items
+                ),
             ));
         }
     }
     for (path, item) in &em.items {
         let module = &path[..path.len() - 1];
         if !item.is_pub {
-            out.push(("not-pub".into(), format!("item {} is not `pub`", path.join("::"))));
+            out.push((
+                "not-pub".into(),
+                format!("item {} is not `pub`", path.join("::")),
+            ));
         }
         let mut used: HashSet<String> = HashSet::new();
         let mut all_fields: Vec<&FieldAst> = vec![];
@@ -51,7 +58,10 @@ pub fn module_problems(em: &Emitted, settings: &SettingsSpec) -> Vec<(String, St
                 let mut names = BTreeSet::new();
                 for v in vs {
                     if !names.insert(v.name.clone()) {
-                        out.push(("duplicate-variant".into(), format!("variant {} twice in {}", v.name, path.join("::"))));
+                        out.push((
+                            "duplicate-variant".into(),
+                            format!("variant {} twice in {}", v.name, path.join("::")),
+                        ));
                     }
                     all_fields.extend(v.fields.list());
                 }
@@ -62,7 +72,10 @@ pub fn module_problems(em: &Emitted, settings: &SettingsSpec) -> Vec<(String, St
             let mut names = BTreeSet::new();
             for f in fs {
                 if !names.insert(f.name.clone()) {
-                    out.push(("duplicate-field".into(), format!("field {:?} twice in {}", f.name, path.join("::"))));
+                    out.push((
+                        "duplicate-field".into(),
+                        format!("field {:?} twice in {}", f.name, path.join("::")),
+                    ));
                 }
             }
         }
@@ -81,7 +94,10 @@ pub fn module_problems(em: &Emitted, settings: &SettingsSpec) -> Vec<(String, St
     }
     // (6) cycles must pass through heap indirection
     if let Some(c) = inline_cycle(em, &table) {
-        out.push(("infinite-size".into(), format!("cycle without heap indirection: {c}")));
+        out.push((
+            "infinite-size".into(),
+            format!("cycle without heap indirection: {c}"),
+        ));
     }
     out
 }
@@ -97,10 +113,18 @@ fn walk_type(
 ) {
     match ty {
         syn::Type::Paren(p) => walk_type(&p.elem, module, item, em, table, used, out),
-        syn::Type::Tuple(t) => t.elems.iter().for_each(|e| walk_type(e, module, item, em, table, used, out)),
+        syn::Type::Tuple(t) => t
+            .elems
+            .iter()
+            .for_each(|e| walk_type(e, module, item, em, table, used, out)),
         syn::Type::Array(a) => walk_type(&a.elem, module, item, em, table, used, out),
         syn::Type::Path(p) => {
-            let segs: Vec<String> = p.path.segments.iter().map(|s| s.ident.to_string()).collect();
+            let segs: Vec<String> = p
+                .path
+                .segments
+                .iter()
+                .map(|s| s.ident.to_string())
+                .collect();
             let args: Vec<&syn::Type> = match p.path.segments.last().map(|s| &s.arguments) {
                 Some(syn::PathArguments::AngleBracketed(a)) => a
                     .args
@@ -115,10 +139,16 @@ fn walk_type(
             for a in &args {
                 walk_type(a, module, item, em, table, used, out);
             }
-            if p.path.leading_colon.is_some() || segs.first().map(|s| s == "crate").unwrap_or(false) {
+            if p.path.leading_colon.is_some() || segs.first().map(|s| s == "crate").unwrap_or(false)
+            {
                 // external: not rooted at the types module. One thing rustc rejects whatever the path means:
                 // a global path (`::x`) cannot start with `crate`, `self` or `super` (E0433)
-                if p.path.leading_colon.is_some() && segs.first().map(|s| matches!(s.as_str(), "crate" | "self" | "super" | "Self")).unwrap_or(false) {
+                if p.path.leading_colon.is_some()
+                    && segs
+                        .first()
+                        .map(|s| matches!(s.as_str(), "crate" | "self" | "super" | "Self"))
+                        .unwrap_or(false)
+                {
                     out.push((
                         "global-path-starts-with-keyword".into(),
                         format!("in {}: `::{}` is not a valid path (global paths cannot start with `{}`)", item.path.join("::"), segs.join("::"), segs[0]),
@@ -133,7 +163,11 @@ fn walk_type(
             match em.resolve_item(module, &segs) {
                 Err(e) => out.push((
                     "unresolved-path".into(),
-                    format!("in {}: path `{}` does not resolve: {e}", item.path.join("::"), segs.join("::")),
+                    format!(
+                        "in {}: path `{}` does not resolve: {e}",
+                        item.path.join("::"),
+                        segs.join("::")
+                    ),
                 )),
                 Ok(target) => {
                     if target.generics.len() != args.len() {
@@ -151,7 +185,13 @@ fn walk_type(
                 }
             }
         }
-        other => out.push(("type-syntax".into(), format!("unexpected type syntax `{}`", squash(&quote::quote!(#other).to_string())))),
+        other => out.push((
+            "type-syntax".into(),
+            format!(
+                "unexpected type syntax `{}`",
+                squash(&quote::quote!(#other).to_string())
+            ),
+        )),
     }
 }
 
@@ -176,7 +216,10 @@ fn inline_cycle(em: &Emitted, table: &HashMap<String, Extern>) -> Option<String>
         }
         match ty {
             syn::Type::Paren(p) => visit(&p.elem, module, em, table, colour, depth + 1),
-            syn::Type::Tuple(t) => t.elems.iter().find_map(|e| visit(e, module, em, table, colour, depth + 1)),
+            syn::Type::Tuple(t) => t
+                .elems
+                .iter()
+                .find_map(|e| visit(e, module, em, table, colour, depth + 1)),
             syn::Type::Array(a) => visit(&a.elem, module, em, table, colour, depth + 1),
             syn::Type::Path(p) => {
                 let args: Vec<syn::Type> = match p.path.segments.last().map(|s| &s.arguments) {
@@ -193,28 +236,49 @@ fn inline_cycle(em: &Emitted, table: &HashMap<String, Extern>) -> Option<String>
                 if p.path.leading_colon.is_some() {
                     return match table.get(&path_key(&p.path)) {
                         // heap indirection: contents are not stored inline
-                        Some(Extern::Vec) | Some(Extern::Box) | Some(Extern::BTreeMap) | Some(Extern::SeqWrapper) | Some(Extern::Cow) | Some(Extern::U8Keyed) => None,
+                        Some(Extern::Vec)
+                        | Some(Extern::Box)
+                        | Some(Extern::BTreeMap)
+                        | Some(Extern::SeqWrapper)
+                        | Some(Extern::Cow)
+                        | Some(Extern::U8Keyed) => None,
                         // PhantomData<T> stores nothing
                         Some(Extern::Phantom) => None,
                         // everything else stores its arguments inline (Option, Result, Range, Compact, substitutes)
-                        _ => args.iter().find_map(|a| visit(a, module, em, table, colour, depth + 1)),
+                        _ => args
+                            .iter()
+                            .find_map(|a| visit(a, module, em, table, colour, depth + 1)),
                     };
                 }
-                let segs: Vec<String> = p.path.segments.iter().map(|s| s.ident.to_string()).collect();
+                let segs: Vec<String> = p
+                    .path
+                    .segments
+                    .iter()
+                    .map(|s| s.ident.to_string())
+                    .collect();
                 let Ok(item) = em.resolve_item(module, &segs) else {
                     return None; // reported elsewhere
                 };
                 if item.generics.len() != args.len() {
                     return None; // reported elsewhere
                 }
-                let k = format!("{}<{}>", item.path.join("::"), args.iter().map(key).collect::<Vec<_>>().join(","));
+                let k = format!(
+                    "{}<{}>",
+                    item.path.join("::"),
+                    args.iter().map(key).collect::<Vec<_>>().join(",")
+                );
                 match colour.get(&k) {
                     Some(1) => return Some(k),
                     Some(_) => return None,
                     None => {}
                 }
                 colour.insert(k.clone(), 1);
-                let env: Vec<(String, syn::Type)> = item.generics.iter().cloned().zip(args.iter().cloned()).collect();
+                let env: Vec<(String, syn::Type)> = item
+                    .generics
+                    .iter()
+                    .cloned()
+                    .zip(args.iter().cloned())
+                    .collect();
                 let item_mod = item.path[..item.path.len() - 1].to_vec();
                 let fields: Vec<&FieldAst> = match &item.kind {
                     ItemKind::Struct(f) => f.list().iter().collect(),
@@ -240,7 +304,10 @@ fn inline_cycle(em: &Emitted, table: &HashMap<String, Extern>) -> Option<String>
         let src = if args.is_empty() {
             p.clone()
         } else {
-            format!("{p}<{}>", args.iter().map(|_| "()").collect::<Vec<_>>().join(","))
+            format!(
+                "{p}<{}>",
+                args.iter().map(|_| "()").collect::<Vec<_>>().join(",")
+            )
         };
         let ty: syn::Type = syn::parse_str(&src).ok()?;
         if let Some(c) = visit(&ty, &[], em, table, &mut colour, 0) {
@@ -254,12 +321,20 @@ pub fn check_case(case: &Case, ctx: &mut Ctx) {
     let registry = match case.registry() {
         Ok(r) => r,
         Err(e) => {
-            ctx.note(format!("de-duplication failed: {} (reported by C04/C10)", truncate(&e, 60)), 1);
+            ctx.note(
+                format!(
+                    "de-duplication failed: {} (reported by C04/C10)",
+                    truncate(&e, 60)
+                ),
+                1,
+            );
             return;
         }
     };
     if root_collides(&registry, &case.settings.root) {
-        ctx.exclude("root module name occurs as a path segment of the registry (the property's proviso)");
+        ctx.exclude(
+            "root module name occurs as a path segment of the registry (the property's proviso)",
+        );
         return;
     }
     let settings = case.settings.build();
@@ -271,11 +346,17 @@ pub fn check_case(case: &Case, ctx: &mut Ctx) {
             return;
         }
         GenOutcome::Err(e) => {
-            ctx.note(format!("generation error {} (reported by C10)", e.name()), 1);
+            ctx.note(
+                format!("generation error {} (reported by C10)", e.name()),
+                1,
+            );
             return;
         }
         GenOutcome::Panic(m) => {
-            ctx.note(format!("generation panic `{}` (reported by C10)", truncate(&m, 60)), 1);
+            ctx.note(
+                format!("generation panic `{}` (reported by C10)", truncate(&m, 60)),
+                1,
+            );
             return;
         }
     };
@@ -294,7 +375,10 @@ pub fn check_case(case: &Case, ctx: &mut Ctx) {
     if emitted.root != case.settings.root {
         ctx.violation(
             "C02/root-name",
-            format!("root module is `{}`, settings say `{}`", emitted.root, case.settings.root),
+            format!(
+                "root module is `{}`, settings say `{}`",
+                emitted.root, case.settings.root
+            ),
             case.replay("C02"),
             case.reg.size(),
         );
@@ -302,7 +386,12 @@ pub fn check_case(case: &Case, ctx: &mut Ctx) {
     let problems = module_problems(&emitted, &case.settings);
     ctx.outcome(&(squash(&tokens), problems.len()));
     for (sig, detail) in problems {
-        ctx.violation(format!("C02/{sig}"), detail, case.replay("C02"), case.reg.size());
+        ctx.violation(
+            format!("C02/{sig}"),
+            detail,
+            case.replay("C02"),
+            case.reg.size(),
+        );
     }
     // every user type of the registry with a namespace (and no substitute) has an item in the module its namespace names
     for t in &registry.types {
@@ -310,11 +399,19 @@ pub fn check_case(case: &Case, ctx: &mut Ctx) {
         if segs.len() < 2 {
             continue;
         }
-        if !matches!(t.ty.type_def, scale_info::TypeDef::Composite(_) | scale_info::TypeDef::Variant(_)) {
+        if !matches!(
+            t.ty.type_def,
+            scale_info::TypeDef::Composite(_) | scale_info::TypeDef::Variant(_)
+        ) {
             continue;
         }
         let p = segs.join("::");
-        if case.settings.substitutes.iter().any(|(from, _)| squash(from).split('<').next() == Some(p.as_str())) {
+        if case
+            .settings
+            .substitutes
+            .iter()
+            .any(|(from, _)| squash(from).split('<').next() == Some(p.as_str()))
+        {
             continue;
         }
         let mut full = vec![case.settings.root.clone()];
@@ -351,13 +448,23 @@ pub fn run(tier: &str, seed: u64) -> i32 {
                 if !thorough && s.depth >= 2 && sname != "faithful" {
                     continue;
                 }
-                let case = Case::new(RegSrc::Prog(prog.clone()), spec.clone(), format!("D-arms {pos} settings {sname}"));
+                let case = Case::new(
+                    RegSrc::Prog(prog.clone()),
+                    spec.clone(),
+                    format!("D-arms {pos} settings {sname}"),
+                );
                 check_case(&case, ctx);
             }
         }
     });
     report.add(st);
-    for st in crate::checks::families::generic_and_family_stats("C02", thorough, seed, false, &|c, ctx| check_case(c, ctx)) {
+    for st in crate::checks::families::generic_and_family_stats(
+        "C02",
+        thorough,
+        seed,
+        false,
+        &|c, ctx| check_case(c, ctx),
+    ) {
         report.add(st);
     }
     // D-graph: cyclic type graphs (every cycle must keep its heap indirection)
@@ -379,7 +486,11 @@ pub fn run(tier: &str, seed: u64) -> i32 {
         if spec.root == "types" {
             spec.root = "runtime_types".into();
         }
-        let mut c = Case::new(RegSrc::Polkadot { retain: None }, spec, format!("D-chain full, settings {sname}"));
+        let mut c = Case::new(
+            RegSrc::Polkadot { retain: None },
+            spec,
+            format!("D-chain full, settings {sname}"),
+        );
         c.dedup = true;
         chain.push(c);
     }
@@ -387,7 +498,11 @@ pub fn run(tier: &str, seed: u64) -> i32 {
     for id in 0..n {
         let mut spec = SettingsSpec::faithful();
         spec.root = "runtime_types".into();
-        let mut c = Case::new(RegSrc::Polkadot { retain: Some(id) }, spec, format!("D-chain retain({id})"));
+        let mut c = Case::new(
+            RegSrc::Polkadot { retain: Some(id) },
+            spec,
+            format!("D-chain retain({id})"),
+        );
         c.dedup = true;
         chain.push(c);
     }
@@ -421,12 +536,11 @@ pub fn replay(case: &Case) -> Vec<Violation> {
     ctx.violations
 }
 
-
 /// Thorough tier: every distinct module the drivers produce under the compile profile is
 /// type-checked by rustc with the real parity-scale-codec derives.
 pub fn compile_tier(_seed: u64, quick: bool) -> Result<Stats, String> {
-    use crate::farm::*;
     use crate::families::*;
+    use crate::farm::*;
     use std::collections::HashSet;
     let profile = compile_profile();
     let mut progs: Vec<(String, Case)> = vec![];
@@ -434,13 +548,19 @@ pub fn compile_tier(_seed: u64, quick: bool) -> Result<Stats, String> {
     let (all, _, _) = enumerate(&a, if quick { 1 } else { 2 }, 1_000_000);
     for (_, s) in &all {
         for (prog, pos) in arms_programs(&s.expr) {
-            progs.push((format!("D-arms {pos}"), Case::new(RegSrc::Prog(prog), profile.clone(), "compile")));
+            progs.push((
+                format!("D-arms {pos}"),
+                Case::new(RegSrc::Prog(prog), profile.clone(), "compile"),
+            ));
         }
     }
     let g = crate::graph::quick_graph(2);
     let (all, _, _) = enumerate(&g, 2, 1_000_000);
     for (_, s) in &all {
-        progs.push(("D-graph".into(), Case::new(RegSrc::Prog(s.program()), profile.clone(), "compile")));
+        progs.push((
+            "D-graph".into(),
+            Case::new(RegSrc::Prog(s.program()), profile.clone(), "compile"),
+        ));
     }
     let d = DGeneric {
         max_fields: 2,
@@ -465,7 +585,7 @@ pub fn compile_tier(_seed: u64, quick: bool) -> Result<Stats, String> {
         leads: vec![0],
         with_neighbours: false,
     };
-    let (all, _, _) = enumerate(&f, 4, 1_000_000);
+    let (all, _, _) = enumerate(&f, if quick { 3 } else { 4 }, 1_000_000);
     for (_, s) in &all {
         let mut c = Case::new(RegSrc::Prog(s.program()), profile.clone(), "compile");
         c.dedup = true;
@@ -519,8 +639,9 @@ pub fn compile_tier(_seed: u64, quick: bool) -> Result<Stats, String> {
     let res = compile(&cases, 16)?;
     let mut st = Stats {
         driver: format!(
-            "compile farm: rustc type-check (cargo check, parity-scale-codec 3.6.12 derives) of every distinct module of D-arms(depth<={}, all positions), D-graph(edges<=2), D-generic(depth<=1), D-family(depth<=4, de-duplicated){} under the compile profile, {} crates",
+            "compile farm: rustc type-check (cargo check, parity-scale-codec 3.6.12 derives) of every distinct module of D-arms(depth<={}, all positions), D-graph(edges<=2), D-generic(depth<=1), D-family(depth<={}, de-duplicated){} under the compile profile, {} crates",
             if quick { 1 } else { 2 },
+            if quick { 3 } else { 4 },
             if quick { "" } else { ", Polkadot" },
             res.crates
         ),
@@ -534,17 +655,33 @@ pub fn compile_tier(_seed: u64, quick: bool) -> Result<Stats, String> {
         wall_s: res.wall_s,
         ..Default::default()
     };
-    st.notes.insert("programs generated under the compile profile".into(), progs.len() as u64);
-    st.notes.insert("programs for which generation does not succeed (not compiled)".into(), not_generated);
-    st.notes.insert("distinct modules compiled".into(), cases.len() as u64);
+    st.notes.insert(
+        "programs generated under the compile profile".into(),
+        progs.len() as u64,
+    );
+    st.notes.insert(
+        "programs for which generation does not succeed (not compiled)".into(),
+        not_generated,
+    );
+    st.notes
+        .insert("distinct modules compiled".into(), cases.len() as u64);
     st.excluded.insert("module mentions `char`, for which parity-scale-codec has no codec (outside the compile profile)".into(), with_char);
-    st.samples = cases.iter().take(2).map(|c| json!({"label": c.label, "module": truncate(&c.tokens, 400)})).collect();
+    st.samples = cases
+        .iter()
+        .take(2)
+        .map(|c| json!({"label": c.label, "module": truncate(&c.tokens, 400)}))
+        .collect();
     let mut by_code: std::collections::BTreeMap<String, (u64, Violation)> = Default::default();
     for e in &res.errors {
         let c = &cases[e.case];
         let v = Violation {
             sig: format!("C02/rustc/{}", e.code),
-            detail: format!("rustc rejects the module generated for a {} case: {} - module: {}", c.label, e.message, truncate(&c.tokens, 400)),
+            detail: format!(
+                "rustc rejects the module generated for a {} case: {} - module: {}",
+                c.label,
+                e.message,
+                truncate(&c.tokens, 400)
+            ),
             replay: c.replay.clone(),
             size: c.tokens.len(),
         };
